@@ -58,7 +58,7 @@ TECH = {
 }
 
 
-TIE_TECH = ("; code this property rests on (the two 1-NN kernels and get_test_batch_size / the control skeleton of _shapley_bruteforce / one permutation walk of _shapley_montecarlo / the JointUtility methods / the accuracy and ROC-AUC element-wise tables / Provenance.query / the AValue and ATally arithmetic / ADD.__call__, restrict, sum, concatenate, stack, update, construct_chain, modelcount, ShapleyOracle.__init__ and query / the operators & and | of the expression classes / the data and expressions paths of Provenance.__init__ / the failure handler of SklearnModelUtility.__call__ and null_score / the front end (fit, score, __init__, _score, _shapley: argument routing, provenance choice, units and world resolution) / the integer-index edits, fork and row selection of the provenance container / compute_shapley_add, get_unit_labels_and_distances, compute_shapley_1nn_mapfork and the batch loop of _shapley_neighbor - see evidence.coverage.translator) is additionally "
+TIE_TECH = ("; code this property rests on (the two 1-NN kernels and get_test_batch_size / the control skeleton of _shapley_bruteforce / one permutation walk of _shapley_montecarlo / the JointUtility methods / the accuracy and ROC-AUC element-wise tables / Provenance.query / the AValue and ATally arithmetic / ADD.__call__, restrict, sum, concatenate, stack, update, construct_chain, modelcount, ShapleyOracle.__init__ and query / the operators & and | of the expression classes, their data / from_data conversions and the unit registry behind them / the data and expressions paths of Provenance.__init__ / the failure handler of SklearnModelUtility.__call__ and null_score / the front end (fit, score, __init__, _score, _shapley: argument routing, provenance choice, units and world resolution) / the integer-index edits, fork and row selection of the provenance container / compute_shapley_add, get_unit_labels_and_distances, compute_shapley_1nn_mapfork and the batch loop of _shapley_neighbor - see evidence.coverage.translator) is additionally "
             "TRANSLATED from /repo's source to Lean on every run (harness/translate*.py -> lean/Gen*) and proved equal to the model (lean/Tie*), so the theorems are re-checked against the current source text")
 
 
